@@ -21,8 +21,9 @@ type StoreStep struct {
 }
 
 type StoreCase struct {
-	Family string      `json:"family"`
-	Steps  []StoreStep `json:"steps"`
+	Family  string      `json:"family"`
+	Steps   []StoreStep `json:"steps"`
+	Prefill int         `json:"prefill,omitempty"` // > 0: the store first receives this many filler keys through one Merge (size-dependent behaviour)
 }
 
 var sharedZooLen = zoo.Fixed()
@@ -156,6 +157,17 @@ func runStoreCaseProg(cs *StoreCase, z []zoo.Named, probe storeProbe, prog *atom
 			key, detail = "panic", fmt.Sprint(p)
 		}
 	}()
+	if cs.Prefill > 0 {
+		m := make(map[string]any, cs.Prefill)
+		for i := 0; i < cs.Prefill; i++ {
+			m[fmt.Sprintf("filler-%d", i)] = i
+		}
+		s.Merge(m)
+		for kk, vv := range m {
+			ref[kk] = vv
+		}
+		stats["prefilled_keys"] = cs.Prefill
+	}
 	for si, st := range cs.Steps {
 		if prog != nil {
 			prog.Store(int64(si))
@@ -382,6 +394,11 @@ func runC14(c *Cfg) {
 		cs := genStoreCase(c, i, 200)
 		if i%5 == 4 {
 			cs = genChurnCase(c, i)
+		}
+		if i%64 == 21 {
+			cs = genStoreCase(c, i, 60)
+			cs.Family, cs.Prefill = "large-store", []int{1000, 1025, 2048, 5000}[(i/64)%4]
+			r.Count("large_store.sequences", 1)
 		}
 		if stuckSeen.Load() {
 			return
